@@ -648,8 +648,11 @@ func runC17(c *Ctx) {
 			where := "?"
 			if cc.after != nil {
 				where = firstUnrewritten(cc.after, cc.table, "root")
+				if where == "" {
+					where = "rewritten-differently"
+				}
 			}
-			violateKeyed(r, Violation{What: "the tree after compiler.PatchOperators is not the explicit-call form: an occurrence whose operand types fit a candidate is left as operator at " + where,
+			violateKeyed(r, Violation{What: "the tree after compiler.PatchOperators is not the explicit-call form (occurrence fitting a candidate left as operator, or rewritten differently) at " + where,
 				Key: "c17:occurrence-not-rewritten:" + where, Input: map[string]interface{}{"source": cc.src, "overloads": cc.table}, Expect: spec, Got: cc.got})
 		}
 	}
